@@ -1,9 +1,11 @@
 /- C11 model driver: model of the lifting vs. the real lifted IR (syntactic), and the executable
 specification on the REAL lifted IR: P-Code reference interpreter vs. IR reference interpreter from the
-same initial states, per block; plus the size-consistency walk over the lifted blocks. -/
+same initial states, per block; plus the size-consistency checker of property C12 (`C12.WellSizedBlk`,
+C12/Model.lean) on the REAL lifted blocks (theorem: `C12.liftBlk_wellSized`). -/
 import CweModel.Base.Proto
 import CweModel.C11.Lift
 import CweModel.C11.Sized
+import CweModel.C12.Model
 open Lean CweModel.Proto
 
 namespace CweModel.C11
@@ -123,6 +125,7 @@ def handleE (line : String) : Except String String := do
     let mut res : SemResult := {}
     let mut sizeFail : Option String := none
     let mut dropped := false
+    let mut sized := 0
     if dom then
       for s in p.program.subs do
         if !subHasEntry s then dropped := true
@@ -135,8 +138,10 @@ def handleE (line : String) : Except String String := do
               | none => res := { res with failure := some ("block-missing", pb.tid.id, "none") }
               | some ib =>
                 res := checkBlock tbl env ptr seeds pb ib res
-                if pcodeBlkSized ptr pb.term && !irBlkSized ptr ib.term && sizeFail.isNone then
+                if pcodeBlkSized ptr pb.term && sizeFail.isNone && !decide (C12.WellSizedBlk ptr ib.term) then
+                  sized := sized + 1
                   sizeFail := some s!"{blkFeature tbl pb.term}@{pb.tid.id}"
+                else if pcodeBlkSized ptr pb.term then sized := sized + 1
     match res.failure, sizeFail with
     | some (cls, expected, observed), _ =>
       return s!"spec class={cls} expected={expected.replace " " "_"} impl={observed.replace " " "_"}"
@@ -150,7 +155,7 @@ def handleE (line : String) : Except String String := do
         else
           let tags := (if dom then "constrained" else "modelonly") ++
             (if res.checked > 0 then " sem-checked" else "") ++ (if res.undef > 0 then " sem-undefined" else "") ++
-            (if dropped then " blocks-dropped" else "")
+            (if dropped then " blocks-dropped" else "") ++ (if sized > 0 then " size-checked" else "")
           return s!"ok lifted {tags}"
 
 end CweModel.C11
